@@ -474,7 +474,7 @@ def activity(isotope, mass, env, exposure, rest_times):
 
             activity = root*precision_correction
             if activity < 0:
-                msg = "activity %g less than zero for %g"%(activity, isotope)
+                msg = "activity %g less than zero for %s"%(activity, isotope)
                 raise RuntimeError(msg)
             #print(ai.thermalXS_parent, ai.resonance_parent, exposure)
             #print("P", effectiveXS, "U", U, "V", V, "W", W, "X",
